@@ -187,7 +187,9 @@ func prehashMsiDir(cdf *comdoc.ComDoc, parent *comdoc.DirEnt, d io.Writer) error
 		return err
 	}
 	sortMsiFiles(files)
-	prehashMsiDirent(parent, d)
+	if err := prehashMsiDirent(parent, d); err != nil {
+		return err
+	}
 	for _, item := range files {
 		name := item.Name()
 		if name == msiDigitalSignature || name == msiDigitalSignatureEx {
@@ -195,7 +197,9 @@ func prehashMsiDir(cdf *comdoc.ComDoc, parent *comdoc.DirEnt, d io.Writer) error
 		}
 		switch item.Type {
 		case comdoc.DirStream:
-			prehashMsiDirent(item, d)
+			if err := prehashMsiDirent(item, d); err != nil {
+				return err
+			}
 		case comdoc.DirStorage:
 			if err := prehashMsiDir(cdf, item, d); err != nil {
 				return err
@@ -206,12 +210,16 @@ func prehashMsiDir(cdf *comdoc.ComDoc, parent *comdoc.DirEnt, d io.Writer) error
 }
 
 // Hash a MSI stream's extended metadata
-func prehashMsiDirent(item *comdoc.DirEnt, d io.Writer) {
+func prehashMsiDirent(item *comdoc.DirEnt, d io.Writer) error {
 	buf := bytes.NewBuffer(make([]byte, 0, 128))
 	_ = binary.Write(buf, binary.LittleEndian, item.RawDirEnt)
 	enc := buf.Bytes()
 	// Name
 	if item.Type != comdoc.DirRoot {
+		// the length comes from the file and counts the terminator; the name field holds 64 bytes
+		if item.NameLength < 2 || item.NameLength > 64 {
+			return errors.New("invalid name length in MSI directory entry")
+		}
 		_, _ = d.Write(enc[:item.NameLength-2])
 	}
 	// UID
@@ -228,6 +236,7 @@ func prehashMsiDirent(item *comdoc.DirEnt, d io.Writer) {
 	if item.Type != comdoc.DirRoot {
 		_, _ = d.Write(enc[100:116])
 	}
+	return nil
 }
 
 // Sort a list of MSI streams in the order needed for hashing
